@@ -234,6 +234,9 @@ func c16TwoBinds() *sched.Scenario {
 			}
 			var nt notes
 			d1, d2 := dataConn(w, c, 31001), dataConn(w, c, 31002)
+			// wind-down: closing the data connections ends the copy loops of a bound connection, so the
+			// ConnectionBind handler that waits for them returns instead of being stranded when the execution ends
+			vsched.OnWind(func() { _ = d1.Close(); _ = d2.Close() })
 			vsched.Go("driver", func() {
 				c.Do(wire.Allocate, tcp)
 				r := c.Do(wire.Connect, peer("B"))
@@ -298,6 +301,7 @@ func c16BindVsTimeout() *sched.Scenario {
 			}
 			var nt notes
 			d1 := dataConn(w, c, 31001)
+			vsched.OnWind(func() { _ = d1.Close() })
 			var peerEnd *simnet.Conn
 			vsched.Go("driver", func() {
 				c.Do(wire.Allocate, tcp)
